@@ -79,6 +79,8 @@ func specLinesText(lines []string, i int) string {
 // before the generator stage (C02, C15)
 //@ closure gtree.split#1
 //@   requires nn: ctx != nil && sc != nil && sc.pos == 0 && !sc.failed
+//@   closes blocks [C12]: blockc
+//@   closes errs [C12]: errc
 //@   modifies bufio.Scanner.pos, bufio.Scanner.failed, errSent, splSent, ctxDoneSeen, gcRecv, rcRecv, rcSentOK, lnConsumed, gcSent, splSharp, splCutOK
 //@   after isRootBlockBeginning: splCutOK := splCutOK && (result == (len(arg0) > 0 && (arg0[0] == '#' || (!splSharp && (arg0[0] == '-' || arg0[0] == '*' || arg0[0] == '+')))))
 //@   after isRootBlockBeginning: splSharp := splSharp || (len(arg0) > 0 && arg0[0] == '#')
@@ -110,6 +112,8 @@ func specLinesText(lines []string, i int) string {
 //@   carries result1: errChan
 //@   modifies Node.children, Node.parent, list.List.view, list.Element.backOf, counter.n, bufio.Scanner.pos, bufio.Scanner.failed, markdown.Parser.isSharpRoot, markdown.Parser.spaces, markdown.Parser.sep, errSent, ctxDoneSeen, gcRecv, rcRecv, rcSentOK, lnConsumed, gcSent, lnNodes, lnRootCount, lnRejected
 //@ closure gtree.rootGeneratorPipeline.generate#1
+//@   closes roots [C12]: rootc
+//@   closes errs [C12]: errc
 //@   requires nn: rg != nil && rg.nodeGenerator != nil && rg.nodeGenerator.parser != nil && md.parserOK(rg.nodeGenerator.parser) && ctx != nil
 //@   modifies Node.children, Node.parent, list.List.view, list.Element.backOf, counter.n, bufio.Scanner.pos, bufio.Scanner.failed, markdown.Parser.isSharpRoot, markdown.Parser.spaces, markdown.Parser.sep, errSent, ctxDoneSeen, gcRecv, rcRecv, rcSentOK, lnConsumed, gcSent, lnNodes, lnRootCount, lnRejected
 //@ loop gtree.rootGeneratorPipeline.generate#1#1
@@ -161,6 +165,8 @@ func specLinesText(lines []string, i int) string {
 //@   carries result1: errChan
 //@   modifies Node.brnch.value, Node.brnch.path, errSent, ctxDoneSeen, gcRecv, rcRecv, rcSentOK, lnConsumed, gcSent
 //@ closure gtree.defaultGrowerPipeline.grow#1
+//@   closes nodes [C12]: nodes
+//@   closes errs [C12]: errc
 //@   requires nn: dg != nil && dg.defaultGrowerSimple != nil && ctx != nil
 //@   modifies Node.brnch.value, Node.brnch.path, errSent, ctxDoneSeen, gcRecv, rcRecv, rcSentOK, lnConsumed, gcSent
 //@ loop gtree.defaultGrowerPipeline.grow#1#1
@@ -185,6 +191,8 @@ func specLinesText(lines []string, i int) string {
 //@   carries result1: errChan
 //@   modifies errSent, ctxDoneSeen, gcRecv, rcRecv, rcSentOK, lnConsumed, gcSent
 //@ closure gtree.nopGrowerPipeline.grow#1
+//@   closes nodes [C12]: nodes
+//@   closes errs [C12]: errc
 //@   requires nn: ctx != nil
 //@   modifies errSent, ctxDoneSeen, gcRecv, rcRecv, rcSentOK, lnConsumed, gcSent
 //@   ensures every [C04]: ctxDoneSeen == old(ctxDoneSeen) ==> drop(gcSent, len(old(gcSent))) == drop(rcRecv, len(old(rcRecv)))
@@ -202,6 +210,7 @@ func specLinesText(lines []string, i int) string {
 //@   carries result0: errChan
 //@   modifies out, wfail, defaultSpreaderSimple.w, errSent, ctxDoneSeen, gcRecv, rcRecv, rcSentOK, lnConsumed, gcSent
 //@ closure gtree.defaultSpreaderPipeline.spread#1
+//@   closes errs [C12]: errc
 //@   requires nn: ds != nil && ds.defaultSpreaderSimple != nil && ctx != nil
 //@   modifies out, wfail, defaultSpreaderSimple.w, errSent, ctxDoneSeen, gcRecv, rcRecv, rcSentOK, lnConsumed, gcSent
 //@ loop gtree.defaultSpreaderPipeline.spread#1#1
@@ -260,6 +269,7 @@ func lemmaRawRangePrefix(roots []*Node, r *Node, k int, i int) {
 // dryRoots: the roots whose dry-run report the massive dry-run spreader has produced (appended together with spText)
 //@ ghost var dryRoots []*Node
 //@ closure gtree.colorizeSpreaderPipeline.spread#1
+//@   closes errs [C12]: errc
 //@   requires nn: cs != nil && cs.colorizeSpreaderSimple != nil && colorizeOK(cs.colorizeSpreaderSimple) && ctx != nil
 //@   requires start: spText == ""
 //@   modifies out, wfail, counter.n, spText, dryRoots, errSent, ctxDoneSeen, gcRecv, rcRecv, rcSentOK, lnConsumed, gcSent
@@ -287,6 +297,7 @@ func lemmaRawRangePrefix(roots []*Node, r *Node, k int, i int) {
 //@   ghostset stageWriter := w
 //@ applies formattedSpreadPipelineSpec to gtree.formattedSpreaderPipeline.spread[jsonNode], gtree.formattedSpreaderPipeline.spread[yamlNode], gtree.formattedSpreaderPipeline.spread[tomlNode]
 //@ contract formattedSpreadPipelineBody
+//@   closes errs [C12]: errc
 //@   requires nn: f != nil && f.encode != nil && f.formattedRoot != nil && ctx != nil
 //@   modifies out, wfail, encTrace, encoders, errSent, ctxDoneSeen, gcRecv, rcRecv, rcSentOK, lnConsumed, gcSent
 //@   ensures once [C04]: encoders == old(encoders) + 1
@@ -333,6 +344,7 @@ func lemmaRawRangePrefix(roots []*Node, r *Node, k int, i int) {
 //@   carries result0: errChan
 //@   modifies fsOps, fsFailed, errSent, mkSeen, ctxDoneSeen, gcRecv, rcRecv, rcSentOK, lnConsumed, gcSent
 //@ closure gtree.defaultMkdirerPipeline.mkdir#1
+//@   closes errs [C12]: errc
 //@   requires nn: dm != nil && dm.defaultMkdirerSimple != nil && dm.defaultMkdirerSimple.fileConsiderer != nil && ctx != nil
 //@   modifies fsOps, fsFailed, errSent, mkSeen, ctxDoneSeen, gcRecv, rcRecv, rcSentOK, lnConsumed, gcSent
 //@ loop gtree.defaultMkdirerPipeline.mkdir#1#1
@@ -367,6 +379,7 @@ func lemmaRawRangePrefix(roots []*Node, r *Node, k int, i int) {
 //@   carries result0: errChan
 //@   modifies maps, errSent, vfSeen, ctxDoneSeen, gcRecv, rcRecv, rcSentOK, lnConsumed, gcSent
 //@ closure gtree.defaultVerifierPipeline.verify#1
+//@   closes errs [C12]: errc
 //@   requires nn: dv != nil && dv.defaultVerifierSimple != nil && ctx != nil
 //@   modifies maps, errSent, vfSeen, ctxDoneSeen, gcRecv, rcRecv, rcSentOK, lnConsumed, gcSent
 //@ loop gtree.defaultVerifierPipeline.verify#1#1
@@ -399,6 +412,7 @@ func lemmaRawRangePrefix(roots []*Node, r *Node, k int, i int) {
 //@   carries result0: errChan
 //@   modifies cbTrace, cbFailed, cbLastErr, cbAfterFail, errSent, ctxDoneSeen, gcRecv, rcRecv, rcSentOK, lnConsumed, gcSent
 //@ closure gtree.defaultWalkerPipeline.walk#1
+//@   closes errs [C12]: errc
 //@   requires nn: dw != nil && dw.defaultWalkerSimple != nil && ctx != nil
 //@   modifies cbTrace, cbFailed, cbLastErr, cbAfterFail, errSent, ctxDoneSeen, gcRecv, rcRecv, rcSentOK, lnConsumed, gcSent
 //@ loop gtree.defaultWalkerPipeline.walk#1#1
